@@ -32,6 +32,23 @@ type radSrv struct {
 	nAuth      int
 	nAcct      int
 	holds      map[string]*radHold // Acct-Session-Id -> the answer to its next Stop is held back
+	// stopFaults: Acct-Session-Id -> what happens to the Accounting-Stop records of the session while the fault is
+	// armed: "reject" (received, recorded, answered with a reject) or "drop" (received, recorded, never answered)
+	stopFaults map[string]string
+}
+
+// faultStops arms (mode "reject" / "drop") or clears (mode "") the Stop fault of a session.
+func (s *radSrv) faultStops(session, mode string) {
+	s.mu.Lock()
+	if s.stopFaults == nil {
+		s.stopFaults = map[string]string{}
+	}
+	if mode == "" {
+		delete(s.stopFaults, session)
+	} else {
+		s.stopFaults[session] = mode
+	}
+	s.mu.Unlock()
 }
 
 // radHold holds back the answer to one Accounting-Stop (a slow RADIUS server): arrived is closed when the
@@ -204,6 +221,18 @@ func (s *radSrv) loop(c *net.UDPConn) {
 				s.recs[a.session] = append(s.recs[a.session], acctRec{Status: a.status, Session: a.session, User: a.user, NAS: a.nas, Cause: a.cause})
 				s.mu.Unlock()
 			}
+			if a.status == 2 {
+				s.mu.Lock()
+				mode := s.stopFaults[a.session]
+				s.mu.Unlock()
+				if mode == "drop" {
+					continue
+				}
+				if mode == "reject" {
+					s.reply(c, addr, 3, buf[1], reqAuth, nil)
+					continue
+				}
+			}
 			if a.status == 2 && !dup {
 				s.mu.Lock()
 				h := s.holds[a.session]
@@ -259,5 +288,6 @@ func (s *radSrv) forget() {
 	s.mu.Lock()
 	s.recs = map[string][]acctRec{}
 	s.seen = map[string]bool{}
+	s.stopFaults = nil
 	s.mu.Unlock()
 }
